@@ -155,6 +155,26 @@ class Parser:
             c = self.bexpr()
             self.take(")")
             return ("loop", c, self.stmt())
+        if x == "do":
+            self.take()
+            body = self.stmt()
+            self.take("while"); self.take("(")
+            c = self.bexpr()
+            self.take(")"); self.take(";")
+            return ("dowhile", c, body)
+        if x == "DEADLINE":
+            self.take(); self.take(";")
+            return ("clock",)
+        if x == "ASSERT":                      # debug-build check without effect on the control flow; must be call-free
+            self.take(); self.take("(")
+            depth = 1
+            while depth:
+                y = self.take()
+                if y in CALLS or y in ("pthread_create", "pthread_join", "sem_timedwait", "usleep", "signaled", "="):
+                    raise CfgErr(f"{self.what}: ASSERT with a call / the flag")
+                depth += {"(": 1, ")": -1}.get(y, 0)
+            self.take(";")
+            return ("block", ())
         if x in ("break", "continue"):
             self.take(); self.take(";")
             return (x,)
@@ -182,13 +202,24 @@ class Parser:
             name = self.take()
             if not re.fullmatch(r"[A-Za-z_]\w*", name) or name in ("signaled", "true", "false") or name in CALLS:
                 raise CfgErr(f"{self.what}: bad local name {name}")
+            self.locals.add(name)
+            if self.peek() == ";":             # declared without a value: reading it before an assignment is refused by the executor
+                self.take()
+                return ("block", ())
             self.take("=")
+            if self.peek() in CALLS:
+                e = self.callcmp()
+                self.take(";")
+                return ("assigncall", name, e)
             e = self.bexpr()
             self.take(";")
-            self.locals.add(name)
             return ("assign", name, e)
         if x == "signaled" or x in self.locals:
             self.take(); self.take("=")
+            if x != "signaled" and self.peek() in CALLS:
+                e = self.callcmp()
+                self.take(";")
+                return ("assigncall", x, e)
             e = self.bexpr()
             self.take(";")
             return ("assign", "signaled" if x == "signaled" else x, e)
@@ -204,20 +235,20 @@ class Parser:
 class ThreadParser(Parser):
     """Thread.cpp / Thread.hpp: the role of the flag is played by the handle `thread` (truth value: attached).  Input is the
     normalised POSIX branch in which tools/areas/sync.py has replaced the functor statements of the member overload by
-    `STOREFUNC ;` and inlined `return start(...)` / `join()`."""
-    THREAD_CALLS = {
-        "pthread_create": ("threadCreate", r"& thread , 0 , \( void \* \( \* \) \( void \* \) \) proc , param"),
-        "pthread_join": ("threadJoin", r"\( pthread_t \) thread , & retval"),
-    }
+    `STOREFUNC ;` and inlined `return start(...)` / `join()`.  Locals: the new handle (`pthread_t h;`), a copy of the member
+    handle (`const pthread_t h = (pthread_t)thread;`), the result pointer (`void* r [= 0];`) - any names."""
 
     def __init__(self, text, what):
         super().__init__(text, what)
-        self.shadow = False          # after `pthread_t thread;` the bare name is the local
+        self.hlocal = None           # local that receives the handle from pthread_create
+        self.halias = None           # local copy of the member handle (for pthread_join)
+        self.result = None           # void* filled by pthread_join
 
-    def call(self):
-        name = self.take()
-        if name not in self.THREAD_CALLS:
-            raise CfgErr(f"{self.what}: call of {name} is not in the translated subset")
+    @property
+    def shadow(self):
+        return self.hlocal == "thread"
+
+    def args(self):
         self.take("(")
         depth, args = 1, []
         while depth:
@@ -225,11 +256,22 @@ class ThreadParser(Parser):
             depth += {"(": 1, ")": -1}.get(x, 0)
             if depth:
                 args.append(x)
-        if not re.fullmatch(self.THREAD_CALLS[name][1], " ".join(args)):
-            raise CfgErr(f"{self.what}: unexpected arguments of {name}: {' '.join(args)}")
-        if name == "pthread_create" and not self.shadow:
-            raise CfgErr(f"{self.what}: pthread_create writes the member `thread` directly")
-        return self.THREAD_CALLS[name][0]
+        return " ".join(args)
+
+    def call(self):
+        name = self.take()
+        a = self.args()
+        if name == "pthread_create":
+            if self.hlocal is None or a != f"& {self.hlocal} , 0 , ( void * ( * ) ( void * ) ) proc , param":
+                raise CfgErr(f"{self.what}: unexpected arguments of pthread_create: {a}")
+            return "threadCreate"
+        if name == "pthread_join":
+            ok = self.result is not None and (a == f"( pthread_t ) thread , & {self.result}" and not self.shadow
+                                              or self.halias is not None and a == f"{self.halias} , & {self.result}")
+            if not ok:
+                raise CfgErr(f"{self.what}: unexpected arguments of pthread_join: {a}")
+            return "threadJoin"
+        raise CfgErr(f"{self.what}: call of {name} is not in the translated subset")
 
     def is_member(self):
         return (self.peek() == "thread" and not self.shadow) or (self.peek() == "this" and self.peek(1) == "-" and self.peek(2) == ">" and self.peek(3) == "thread")
@@ -246,16 +288,21 @@ class ThreadParser(Parser):
         return super().bun()
 
     def cond(self):
-        return self.callcmp() if self.peek() in self.THREAD_CALLS else self.bexpr()
+        return self.callcmp() if self.peek() in ("pthread_create", "pthread_join") else self.bexpr()
 
     def stmt(self):
         x = self.peek()
-        if x == "pthread_t" and self.peek(1) == "thread" and self.peek(2) == ";":
+        if x == "pthread_t" and self.peek(2) == ";":
+            self.hlocal = self.peek(1)
             self.i += 3
-            self.shadow = True
             return ("block", ())
-        if x == "void" and [self.peek(k) for k in range(1, 4)] == ["*", "retval", ";"]:
-            self.i += 4
+        if x == "const" and self.peek(1) == "pthread_t" and [self.peek(k) for k in range(3, 9)] == ["=", "(", "pthread_t", ")", "thread", ";"] and not self.shadow:
+            self.halias = self.peek(2)
+            self.i += 9
+            return ("block", ())
+        if x == "void" and self.peek(1) == "*" and (self.peek(3) == ";" or [self.peek(k) for k in range(3, 6)] == ["=", "0", ";"]):
+            self.result = self.peek(2)
+            self.i += 4 if self.peek(3) == ";" else 6
             return ("block", ())
         if x == "STOREFUNC":
             self.take(); self.take(";")
@@ -274,7 +321,7 @@ class ThreadParser(Parser):
             if rest == ["0"]:
                 self.i += 3
                 return ("return", ("zero",))
-            if rest == ["(", "uint", ")", "(", "intptr_t", ")", "retval"]:
+            if self.result is not None and rest == ["(", "uint", ")", "(", "intptr_t", ")", self.result]:
                 self.i += 9
                 return ("return", ("joined",))
         if self.is_member() and x != "if":
@@ -283,10 +330,10 @@ class ThreadParser(Parser):
             if self.peek() == "0":
                 self.take(); self.take(";")
                 return ("assign", "signaled", ("false",))
-            for tk in ("(", "void", "*", ")", "thread", ";"):
+            if self.hlocal is None:
+                raise CfgErr(f"{self.what}: the handle is set without a pthread_create result")
+            for tk in ("(", "void", "*", ")", self.hlocal, ";"):
                 self.take(tk)
-            if not self.shadow:
-                raise CfgErr(f"{self.what}: `thread = (void*)thread` without the local handle")
             return ("assign", "signaled", ("true",))
         return super().stmt()
 
@@ -306,6 +353,8 @@ class Run:
         if k == "flag":
             return flag
         if k == "var":
+            if e[1] not in env:
+                raise CfgErr(f"{self.what}: local {e[1]} is read before it is assigned")
             return env[e[1]]
         if k == "not":
             return not self.ev(e[1], env, flag)
@@ -329,11 +378,12 @@ class Run:
         env = dict(env)
         written = None
         funcw = False        # the functor of Thread::start(obj, member) was stored
+        clockr = False       # the clock was read / the deadline computed (DEADLINE marker)
         todo = None          # statement to execute next
         for _ in range(2000):
             if todo is None:
                 if not cont:
-                    return ("ret", None, flag, written, funcw)   # falls off the end of a void function
+                    return ("ret", None, flag, written, funcw, clockr)   # falls off the end of a void function
                 f = cont[0]
                 if f[0] == "seq":
                     _, stmts, idx = f
@@ -356,7 +406,7 @@ class Run:
             elif k == "if":
                 c = s[1]
                 if c[0] == "callcmp":
-                    return ("call", c[1], ("if", c[2], s[2], s[3]), cont, env, flag, written, funcw)
+                    return ("call", c[1], ("if", c[2], s[2], s[3]), cont, env, flag, written, funcw, clockr)
                 br = s[2] if self.ev(c, env, flag) else s[3]
                 todo = br
             elif k == "loop":
@@ -365,18 +415,25 @@ class Run:
                 cont = self.unwind(cont, k)
             elif k == "return":
                 if s[1] is None:
-                    return ("ret", None, flag, written, funcw)
+                    return ("ret", None, flag, written, funcw, clockr)
                 if s[1][0] == "callcmp":
-                    return ("call", s[1][1], ("ret", s[1][2]), cont, env, flag, written, funcw)
+                    return ("call", s[1][1], ("ret", s[1][2]), cont, env, flag, written, funcw, clockr)
                 if s[1][0] in ("zero", "joined"):
-                    return ("ret", s[1][0], flag, written, funcw)
-                return ("ret", self.ev(s[1], env, flag), flag, written, funcw)
+                    return ("ret", s[1][0], flag, written, funcw, clockr)
+                return ("ret", self.ev(s[1], env, flag), flag, written, funcw, clockr)
             elif k == "verify":
-                return ("call", s[1][1], ("verify", s[1][2]), cont, env, flag, written, funcw)
+                return ("call", s[1][1], ("verify", s[1][2]), cont, env, flag, written, funcw, clockr)
             elif k == "bare":
-                return ("call", s[1], ("bare",), cont, env, flag, written, funcw)
+                return ("call", s[1], ("bare",), cont, env, flag, written, funcw, clockr)
+            elif k == "assigncall":
+                return ("call", s[2][1], ("assign", s[2][2], s[1]), cont, env, flag, written, funcw, clockr)
             elif k == "func":
                 funcw = True
+            elif k == "clock":
+                clockr = True
+            elif k == "dowhile":
+                cont = (("loop", ("loop", s[1], s[2])),) + cont
+                todo = s[2]
             elif k == "assign":
                 v = self.ev(s[2], env, flag)
                 if s[1] == "signaled":
@@ -396,14 +453,18 @@ class Run:
         if k == "verify":
             return None if not truth else self.run(cont, env, flag)
         if k == "ret":
-            return ("ret", truth, flag, None, False)
+            return ("ret", truth, flag, None, False, False)
+        if k == "assign":
+            env = dict(env)
+            env[use[2]] = truth
+            return self.run(cont, env, flag)
         br = use[2] if truth else use[3]
         return self.run(((("seq", (br,), 0),) if br is not None else ()) + cont, env, flag)
 
 
 def table(text, what, parser=None):
     """returns (entry edges [flag=T, flag=F], nodes [(call, [okT, okF, failT, failF])]); an edge is None or
-    (flag store | None, functor stored?, ("node", n) | ("ret", v))"""
+    (flag store | None, functor stored?, clock read?, ("node", n) | ("ret", v))"""
     p = (parser or Parser)(text, what)
     ast = p.body()
     r = Run(what)
@@ -417,7 +478,7 @@ def table(text, what, parser=None):
         if res is None:
             return None
         if res[0] == "ret":
-            return (res[3], res[4], ("ret", res[1]))
+            return (res[3], res[4], res[5], ("ret", res[1]))
         k = key(res)
         if k not in keys:
             keys[k] = len(nodes)
@@ -425,7 +486,7 @@ def table(text, what, parser=None):
             pending.append(res)
             if len(nodes) > 40:
                 raise CfgErr(f"{what}: more than 40 program points")
-        return (res[6], res[7], ("node", keys[k]))
+        return (res[6], res[7], res[8], ("node", keys[k]))
 
     entry = [edge(r.run((("seq", (ast,), 0),), {}, fl)) for fl in (True, False)]
     i = 0
@@ -443,7 +504,7 @@ def minimise(entry, nodes):
     while True:
         def sig(i):
             c, es = nodes[i]
-            return (cls[i],) + tuple(None if e is None else (e[0], e[1], ("node", cls[e[2][1]]) if e[2][0] == "node" else e[2]) for e in es)
+            return (cls[i],) + tuple(None if e is None else (e[0], e[1], e[2], ("node", cls[e[3][1]]) if e[3][0] == "node" else e[3]) for e in es)
         sigs = [sig(i) for i in range(len(nodes))]
         if len(set(sigs)) == len(set(cls)):
             break
@@ -454,8 +515,8 @@ def minimise(entry, nodes):
     order, seen = [], {}
 
     def visit(e):
-        if e is not None and e[2][0] == "node":
-            c = cls[e[2][1]]
+        if e is not None and e[3][0] == "node":
+            c = cls[e[3][1]]
             if c not in seen:
                 seen[c] = len(order)
                 order.append(rep[c])
@@ -466,18 +527,37 @@ def minimise(entry, nodes):
         for e in nodes[order[k]][1]:
             visit(e)
         k += 1
-    ren = lambda e: None if e is None else (e[0], e[1], ("node", seen[cls[e[2][1]]]) if e[2][0] == "node" else e[2])
+    ren = lambda e: None if e is None else (e[0], e[1], e[2], ("node", seen[cls[e[3][1]]]) if e[3][0] == "node" else e[3])
     return [ren(e) for e in entry], [(nodes[i][0], [ren(e) for e in nodes[i][1]]) for i in order]
 
 
 def strip_deadline(norm_text, what):
-    """wait(int64): drop `struct timespec ts; clock_gettime(CLOCK_REALTIME, &ts);` and the statements that compute the deadline
-    (translated separately: Generated/SyncDeadline.lean, which also checks that `ts` is not touched afterwards)"""
+    """wait(int64): replace `struct timespec ts; [VERIFY(]clock_gettime(CLOCK_REALTIME, &ts)[== 0)]; <statements that compute the
+    deadline>` - wherever it stands - by the marker statement `DEADLINE ;` (the clock is read there) and drop `const long N = <number>;`
+    declarations (the arithmetic is translated separately: Generated/SyncDeadline.lean, which also checks that `ts` is not touched
+    afterwards)"""
     t = norm_text.split(" ")
-    pre = "struct timespec ts ; clock_gettime ( CLOCK_REALTIME , & ts ) ;".split(" ")
-    if t[:len(pre)] != pre:
-        raise CfgErr(f"{what}: does not begin with `struct timespec ts; clock_gettime(CLOCK_REALTIME, &ts);`")
-    i = len(pre)
+    out, i = [], 0
+    while i < len(t):                   # named constants of the arithmetic
+        if t[i:i + 2] == ["const", "long"] and i + 5 < len(t) and t[i + 3] == "=" and t[i + 4].isdigit() and t[i + 5] == ";":
+            i += 6
+        else:
+            out.append(t[i])
+            i += 1
+    t = out
+    pre = "struct timespec ts ;".split(" ")
+    starts = [k for k in range(len(t)) if t[k:k + len(pre)] == pre]
+    if len(starts) != 1:
+        raise CfgErr(f"{what}: expected exactly one `struct timespec ts;`")
+    k = starts[0]
+    i = k + len(pre)
+    for clk in ("clock_gettime ( CLOCK_REALTIME , & ts ) ;", "VERIFY ( clock_gettime ( CLOCK_REALTIME , & ts ) == 0 ) ;"):
+        c = clk.split(" ")
+        if t[i:i + len(c)] == c:
+            i += len(c)
+            break
+    else:
+        raise CfgErr(f"{what}: `struct timespec ts;` is not followed by clock_gettime(CLOCK_REALTIME, &ts)")
 
     def skip_stmt(i):
         if t[i] == "{":
@@ -493,6 +573,8 @@ def strip_deadline(norm_text, what):
     while i < len(t):
         if t[i] in ("ts", "++", "--"):
             i = skip_stmt(i)
+        elif t[i] == "ASSERT" and "ts" in t[i:skip_stmt(i)]:
+            i = skip_stmt(i)
         elif t[i] == "if" and t[i + 1] == "(" and t[i + 2] == "ts":
             d, i = 1, i + 2
             while d:
@@ -503,7 +585,7 @@ def strip_deadline(norm_text, what):
                 i = skip_stmt(i + 1)
         else:
             break
-    return " ".join(t[i:])
+    return " ".join(t[:k] + ["DEADLINE", ";"] + t[i:])
 
 
 # ---- Semaphore::wait(int64): the sem_timedwait retry loop and the ENOSYS polling loop ------------------------------
@@ -586,8 +668,8 @@ class SemParser(Parser):
             self.take(";")
             sub = SemParser(" ".join(toks) + " ;", self.what)
             return ("bare", ("usleep", sub.const((";",))))
-        if x == "for" and self.peek(2) == "int":
-            self.take(); self.take("("); self.take("int")
+        if x == "for" and self.peek(2) in ("int", "int64", "long"):
+            self.take(); self.take("("); self.take()
             v = self.take(); self.take("=")
             a = self.const((";",)); self.take(";")
             if self.take() != v:
@@ -662,7 +744,7 @@ class SemRun(Run):
             k = s[0]
             if k == "block":
                 cont = (("seq", s[1], 0),) + cont
-            elif k == "label":
+            elif k in ("label", "clock"):
                 pass
             elif k == "goto":
                 idx = [i for i, st in enumerate(self.top) if st == ("label", s[1])]
@@ -788,13 +870,13 @@ def lean_sem_fn(name, doc, tab):
 def lean_edge(e):
     if e is None:
         return "none"
-    st, fw, nx = e
+    st, fw, ck, nx = e
     s = "none" if st is None else f"(some {'true' if st else 'false'})"
     if nx[0] == "node":
         n = f"(.node {nx[1]})"
     else:
         n = {None: "(.ret .void)", True: "(.ret (.bool true))", False: "(.ret (.bool false))", "zero": "(.ret .zero)", "joined": "(.ret .joined)"}[nx[1]]
-    return f"(some ⟨{s}, {'true' if fw else 'false'}, {n}⟩)"
+    return f"(some ⟨{s}, {'true' if fw else 'false'}, {'true' if ck else 'false'}, {n}⟩)"
 
 
 def lean_fn(name, doc, tab):
